@@ -159,7 +159,7 @@ CHECKS = {
         'prefixes). Every path ending in a panic obligation (index, subtraction, unwrap / expect) or exceeding every loop bound derivable from the token count (no progress '
         '= hang) yields a token vector that is run through the real binary; what reproduces there (status 101 / no termination) is a violation. ArithmeticOp::calc on '
         'arbitrary operands is included for evaluation-time crashes.'
-        ' On every accepted (Ok) token vector a must-reject oracle is applied: unbalanced or mismatched brackets, dangling / unknown operator, ORDER BY position outside the select list, non-numeric LIMIT, unknown output format, no column — such a vector must be rejected (replayed: status 2 and no rows). The eval family also runs the C16 `args` family (scalar functions on ill-typed / out-of-range arguments, std::time::Duration constructors by contract).',
+        ' On every accepted (Ok) token vector a must-reject oracle is applied: unbalanced or mismatched brackets, dangling / unknown operator, ORDER BY position outside the select list, non-numeric LIMIT, unknown output format, no column — such a vector must be rejected (replayed: status 2 and no rows). The eval family also runs the C16 `args` / `args_all` families (every scalar function of the Function enum on ten ill-typed / empty / negative / huge arguments in the first, second and third position; std::time::Duration constructors, static regexes by contract; functions that end in unmodelled library code are listed in the evidence notes as undecided).',
    note=TRUST + 'Assumed: the lexer is replaced by the symbolic lexem vector (the lexer loop over raw bytes is not covered); UserDirs::new = None. Bounds (symbolic tokens after the '
         'prefix): full alphabet 2 (quick) / 4 (thorough); select, where, tail 3 / 5; ORDER BY, GROUP BY 3 / 4; 60 s per family in the quick tier (an unexhausted length is noted '
         'in the evidence). Crashes of scalar functions on ill-typed arguments and of date / boolean literals are not covered by this check.',
